@@ -265,6 +265,52 @@ def check_record(args):
     return out
 
 
+def outfile_case(args):
+    """the option file main() writes for --output-cmdline describes the model GIVEN (start frequency included), whether
+       or not the run sweeps the frequency; read back, it gives the same model and the same first step"""
+    name, base = args
+    import tempfile, os
+    out = dict(mism=[], exc=None)
+    try:
+        ref, msg = run_main(base)
+        if not isinstance(ref, Mininec):
+            out['mism'].append(dict(what='original-rejected', msg=msg))
+            return out
+        for vname, extra in (('single', []), ('sweep-up', ['--frequency-steps=3', '--frequency-increment=0.5']),
+                             ('sweep-down', ['--frequency-steps=2', '--frequency-increment=-0.75'])):
+            fd, path = tempfile.mkstemp(suffix='.pym')
+            os.close(fd)
+            try:
+                so, se = io.StringIO(), io.StringIO()
+                with contextlib.redirect_stdout(so), contextlib.redirect_stderr(se):
+                    rc = main(base + extra + ['--output-cmdline=' + path], f_err=se)
+                if rc:
+                    out['mism'].append(dict(what='run-with-output-file-rejected', variant=vname, msg=se.getvalue()[:200]))
+                    continue
+                text = open(path).read()
+            finally:
+                os.unlink(path)
+            m2, msg = run_main([t for t in tokens(text) if not t.startswith(('--theta', '--phi'))])
+            if not isinstance(m2, Mininec):
+                out['mism'].append(dict(what='written-options-rejected', variant=vname, msg=msg))
+                continue
+            if abs(m2.f - ref.f) > 1e-7 * ref.f:
+                out['mism'].append(dict(what='written-frequency', variant=vname, written=float(m2.f), given=float(ref.f)))
+            for b in compare(project(ref), project(m2)):
+                out['mism'].append(dict(what=b, variant=vname))
+    except Exception as e:      # noqa
+        import traceback
+        out['exc'] = repr(e) + traceback.format_exc()[-500:]
+    return out
+
+
+OUTFILE_BASES = [
+    ('dipole-load', ['-f', '7.0', '-w', '10,0,0,10,21,0,10,0.001', '--excitation-pulse=5', '--load=50+5j', '--attach-load=1,3']),
+    ('tagged-ground', ['-f', '14.2', '--medium=0,0,0', '-w', '7,4,0,0,0,0,0,8,0.002', '-w', '3,3,0,0,8,4,1,8,0.002',
+                       '--excitation-pulse=1,7', '--skin-effect-conductivity=3e7,3']),
+]
+
+
 # (config, simulate, fraction of the dumped scenarios replayed)
 RUNS = {
     'quick': [('MC_OptionFile_objs.cfg', None, 0.3), ('MC_OptionFile_loads.cfg', None, 0.15),
@@ -342,6 +388,13 @@ def run(tier):
                                spec_predicts_failure=not rec['ok']),
                           dict(argv=o['argv'], info=mm, spec=rec))
     chk.cov['spec_prediction_agrees'] = agree
+    for (name, base), o in zip(OUTFILE_BASES, [outfile_case(x) for x in OUTFILE_BASES]):
+        chk.case('outfile/' + name, True, sample=dict(output_cmdline=name), n=3)
+        if o['exc']:
+            chk.violation(dict(kind='exception', exc=o['exc'].split('(')[0]), dict(case=name, exc=o['exc']))
+        for mm in o['mism']:
+            chk.violation(dict(kind=mm['what'], variant=mm.get('variant'), by_geo=False, loads_attached_out_of_kind_order=False,
+                               spec_predicts_failure=False), dict(case=name, info=mm))
     return chk.finish(
         rule='one case per distinct command line dumped by TLC; non-trivial = at least two objects, a load attachment or two sources; '
              'each case is written and read back twice (plain and load_by_geo), a sampled fraction is solved for the feed impedances')
